@@ -266,6 +266,25 @@ def run(chk, scratch):
                                extra=["--check_canonical", "--report_canonical", lvl, "--model_construction_strategy", "sensitive_ont"] +
                                (["--polya_requirement", "never"] if (seed + len(lvl)) % 2 == 0 else []))
             r["masked"] = (rm_, os.path.join(dm, "out"))
+        # the reference compressed with plain gzip, in an output folder that an earlier run used for ANOTHER genome with the same file name:
+        # the flags are functions of the reference given to THIS run
+        if job == jobs[1 % len(jobs)]:
+            import gzip
+            dz = os.path.join(d, "gz")
+            os.makedirs(os.path.join(dz, "other"))
+            os.makedirs(os.path.join(dz, "this"))
+            comp = bytes.maketrans(b"ACGTacgt", b"CATGcatg")
+            with open(os.path.join(d, "g.fa"), "rb") as src, gzip.open(os.path.join(dz, "this", "g.fa.gz"), "wb") as a_, gzip.open(os.path.join(dz, "other", "g.fa.gz"), "wb") as b_:
+                for line in src:
+                    a_.write(line)
+                    b_.write(line if line.startswith(b">") else line.translate(comp))
+            zargs = ["-d", "nanopore", "-g", os.path.join(d, "a.gtf"), "--complete_genedb", "--bam", os.path.join(d, "r.bam"), "-t", str(threads), "-p", pipeline.PREFIX,
+                     "--no_gzip", "--force", "--check_canonical", "--report_canonical", lvl, "--model_construction_strategy", "sensitive_ont"] + \
+                    (["--polya_requirement", "never"] if (seed + len(lvl)) % 2 == 0 else [])
+            zout = os.path.join(dz, "out")
+            runner.run_isoquant(["-o", zout, "-r", os.path.join(dz, "other", "g.fa.gz")] + zargs + ["--no_model_construction"], os.path.join(dz, "home"))
+            rz = runner.run_isoquant(["-o", zout, "-r", os.path.join(dz, "this", "g.fa.gz")] + zargs, os.path.join(dz, "home"))
+            r["gz"] = (rz, zout)
         return job, d, w, shared, out, ev, r
     both_strands = 0
     queries = 0
@@ -288,6 +307,15 @@ def run(chk, scratch):
                 for rel, why in runner.compare_trees(os.path.join(out, pipeline.PREFIX), os.path.join(mout, pipeline.PREFIX))[:6]:
                     chk.violation("soft-masked-reference-changes-output:%s" % (rel.split(".", 1)[1] if "." in rel else rel),
                                   "%s: %s %s between the upper-case reference and its soft-masked (partly lower-case) copy" % (desc, rel, why), wit)
+        if r.get("gz"):
+            rz, zout = r["gz"]
+            chk.count("gz_reference_in_used_folder_runs")
+            if rz["rc"] != 0:
+                chk.violation("gz-reference-in-used-folder:run-failed", "%s: exited %s: %s" % (desc, rz["rc"], pipeline.fail_text(rz)), wit)
+            else:
+                for rel, why in runner.compare_trees(os.path.join(out, pipeline.PREFIX), os.path.join(zout, pipeline.PREFIX))[:6]:
+                    chk.violation("flags-follow-another-reference:%s" % (rel.split(".", 1)[1] if "." in rel else rel),
+                                  "%s: %s %s between the run on the plain FASTA and the run on its gzipped copy in an output folder used before for another genome" % (desc, rel, why), wit)
         # (1) function level: the query log
         per_locus = defaultdict(lambda: defaultdict(set))
         for e in runner.load_events(ev):
